@@ -195,6 +195,8 @@ def pytype(t):
         return tuple
     if k == "other":
         return OTHER_ANNOTATIONS[t[1]]()
+    if k == "alt":
+        return ALT_SPELLINGS[t[1]][1]()
     if k == "union":
         return typing.Union[tuple([pytype(x) for x in t[1]] + ([type(None)] if t[2] else []))]
     if k == "dictk":
@@ -202,15 +204,42 @@ def pytype(t):
     raise ValueError(t)
 
 
-# annotations that neither _check_config_struct_type nor _parse_config_value recognises
+# Alternative spellings of annotations of the pinned grammar: (family, constructor, equivalent type term).
+# C16 does not fix whether an implementation supports such a spelling: it either refuses it as
+# unsupported or handles it exactly as its equivalent.  Which one is OBSERVED per family (probe_families)
+# and passed to the model as its policy; "exactly as its equivalent" is checked differentially.
+ALT_SPELLINGS = {
+    "int | None": (0, lambda: int | None, ["opt", ["int"]]),
+    "float | None": (0, lambda: float | None, ["opt", ["float"]]),
+    "str | int": (0, lambda: str | int, ["union", [["str"], ["int"]], False]),
+    "list[int]": (1, lambda: list[int], ["list", ["int"]]),
+    "dict[str, int]": (1, lambda: dict[str, int], ["dict", ["int"]]),
+    "tuple[int, int]": (1, lambda: tuple[int, int], ["tuple", [["int"], ["int"]]]),
+}
+ALT_PROBES = {0: "int | None", 1: "list[int]"}
+FAMS_ON = set()
+
+
+def probe_families():
+    """which families of alternative spellings the implementation under test handles"""
+    FAMS_ON.clear()
+    for fam, name in ALT_PROBES.items():
+        if impl_check(["alt", name])[0] == "ok":
+            FAMS_ON.add(fam)
+
+
+def alt_equiv(t):
+    return ALT_SPELLINGS[t[1]][2]
+
+
+def alt_on(t):
+    return ALT_SPELLINGS[t[1]][0] in FAMS_ON
+
+
+# annotations that neither function recognises and that have no equivalent in the grammar: refused
 OTHER_ANNOTATIONS = {
     "Set[int]": lambda: typing.Set[int],
     "FrozenSet[str]": lambda: typing.FrozenSet[str],
-    "int | None": lambda: int | None,
-    "str | int": lambda: str | int,
-    "list[int]": lambda: list[int],
-    "dict[str, int]": lambda: dict[str, int],
-    "tuple[int, int]": lambda: tuple[int, int],
     "bytes": lambda: bytes,
     "complex": lambda: complex,
     "object": lambda: object,
@@ -218,7 +247,6 @@ OTHER_ANNOTATIONS = {
     "Set[List[int]]": lambda: typing.Set[typing.List[int]],
     "Mapping[str, int]": lambda: typing.Mapping[str, int],
     "Type[int]": lambda: typing.Type[int],
-    "float | None": lambda: float | None,
 }
 _union_order = {}
 DICT_KEYS = {"int": int, "bytes": bytes, "Any": typing.Any, "float": float}
@@ -265,6 +293,8 @@ def build_value(t, d):
         return copy.deepcopy(d)
     if k == "rawtuple":
         return tuple(copy.deepcopy(d))
+    if k == "alt":
+        return build_value(alt_equiv(t), d)
     if k == "list":
         return [build_value(t[1], x) for x in d]
     if k == "vtuple":
@@ -316,6 +346,8 @@ def cann(t):
         return "(ARaw %s)" % {"rawlist": "RList", "rawdict": "RDict", "rawtuple": "RTuple", "rawtupleb": "RTupleB"}[k]
     if k == "other":
         return "AOther"
+    if k == "alt":
+        return "(AAlt %s %s)" % (cnat(ALT_SPELLINGS[t[1]][0]), cann(alt_equiv(t)))
     if k == "opt":
         return "(AOpt %s)" % cann(t[1])
     if k == "list":
@@ -469,7 +501,7 @@ class TypeGen:
         self.n += 1
         fields, names = [], set()
         for _ in range(rng.choice([0, 1, 2, 2, 3, 4])):
-            name = rng.choice(["a", "b", "c", "x", "y", "val", "name", "items_", "f0", "f1", "host", "k"])
+            name = rng.choice(["fa", "b", "c", "x", "y", "val", "name", "items_", "f0", "f1", "host", "k"])
             if name in names:
                 continue
             names.add(name)
@@ -497,6 +529,8 @@ def gen_data(rng, t, for_default=False):
         return rng.choice([True, False])
     if k in ("any", "other"):
         return gen_plain(rng, 2)
+    if k == "alt":
+        return gen_data(rng, alt_equiv(t), for_default)
     if k in ("rawlist", "rawtuple", "rawtupleb"):
         return [gen_plain(rng, 1) for _ in range(rng.choice([0, 1, 2, 3]))]
     if k == "rawdict":
@@ -529,6 +563,8 @@ def gen_data(rng, t, for_default=False):
 
 def _norm(t):
     """dictk parses like dict; a multi-member Union parses like its last member (Optional if None is in it)"""
+    if t[0] == "alt":
+        return _norm(alt_equiv(t)) if alt_on(t) else t
     if t[0] == "dictk":
         return ["dict", t[2]]
     if t[0] == "union":
@@ -707,9 +743,11 @@ def strip_opt(t):
 
 # ---- annotations outside the accepted grammar --------------------------------------------------
 def gen_unsupported(rng, tg, depth):
-    k = rng.choice(["other", "other", "union", "union", "dictk", "rawtupleb"])
+    k = rng.choice(["other", "alt", "alt", "union", "union", "dictk", "rawtupleb"])
     if k == "other":
         return ["other", rng.choice(sorted(OTHER_ANNOTATIONS))]
+    if k == "alt":
+        return ["alt", rng.choice(sorted(ALT_SPELLINGS))]
     if k == "rawtupleb":
         return ["rawtupleb"]
     if k == "dictk":
@@ -730,29 +768,36 @@ def gen_unsupported(rng, tg, depth):
             return ["union", copy.deepcopy(ms), hn]
 
 
-def sub_nodes(t, route, out):
+def sub_nodes(t, route, out, into_alt=False):
     """(definition path, parent list, index) of every annotation below t"""
     k = t[0]
-    if k == "opt":
+    if k == "alt" and into_alt:
+        sub_nodes(copy.deepcopy(alt_equiv(t)), route, out, into_alt)
+    elif k == "dictk" and into_alt:
+        out.append((route + [("any",)], t, 2))
+        sub_nodes(t[2], route + [("any",)], out, into_alt)
+    elif k == "opt":
         out.append((route, t, 1))
-        sub_nodes(t[1], route, out)
+        sub_nodes(t[1], route, out, into_alt)
     elif k in ("list", "dict", "vtuple"):
         out.append((route + [("any",)], t, 1))
-        sub_nodes(t[1], route + [("any",)], out)
+        sub_nodes(t[1], route + [("any",)], out, into_alt)
     elif k == "tuple":
         for i, x in enumerate(t[1]):
             out.append((route + [("i", i)], t[1], i))
-            sub_nodes(x, route + [("i", i)], out)
+            sub_nodes(x, route + [("i", i)], out, into_alt)
     elif k == "struct":
         for f in t[2]:
             out.append((route + [("f", f[0])], f, 1))
-            sub_nodes(f[1], route + [("f", f[0])], out)
+            sub_nodes(f[1], route + [("f", f[0])], out, into_alt)
 
 
 def contains_unsupported(t):
     k = t[0]
     if k in ("other", "union", "dictk", "rawtupleb"):
         return True
+    if k == "alt":
+        return (not alt_on(t)) or contains_unsupported(alt_equiv(t))
     if k in ("opt", "list", "dict", "vtuple"):
         return contains_unsupported(t[1])
     if k == "tuple":
@@ -773,14 +818,49 @@ def strip_defaults(t):
             strip_defaults(x)
     elif k == "dictk":
         strip_defaults(t[2])
+    elif k == "alt":
+        pass
     elif k == "union":
         for x in t[1]:
             strip_defaults(x)
     elif k == "struct":
         for f in t[2]:
             strip_defaults(f[1])
-            if contains_unsupported(f[1]):
+            if contains_unsupported(f[1]) or contains_alt(f[1]):     # the default was made for the replaced annotation
                 f[2] = None
+
+
+def contains_alt(t):
+    k = t[0]
+    if k == "alt":
+        return True
+    if k in ("opt", "list", "dict", "vtuple"):
+        return contains_alt(t[1])
+    if k == "dictk":
+        return contains_alt(t[2])
+    if k in ("tuple", "union"):
+        return any(contains_alt(x) for x in t[1])
+    if k == "struct":
+        return any(contains_alt(f[1]) for f in t[2])
+    return False
+
+
+def replace_alt(t):
+    """the same annotation with every alternative spelling replaced by its typing equivalent"""
+    k = t[0]
+    if k == "alt":
+        return copy.deepcopy(alt_equiv(t))
+    if k in ("opt", "list", "dict", "vtuple"):
+        return [k, replace_alt(t[1])]
+    if k == "dictk":
+        return [k, t[1], replace_alt(t[2])]
+    if k == "tuple":
+        return [k, [replace_alt(x) for x in t[1]]]
+    if k == "union":
+        return [k, [replace_alt(x) for x in t[1]], t[2]]
+    if k == "struct":
+        return [k, t[1], [[f[0], replace_alt(f[1]), f[2]] for f in t[2]]] + t[3:]
+    return t
 
 
 def inject_unsupported(rng, tg, t, n):
@@ -797,17 +877,18 @@ def inject_unsupported(rng, tg, t, n):
         if parent[0] == "opt":
             u = gen_unsupported(rng, tg, 1)
             # typing merges Optional[Union[...]] and Optional[X | Y] into one Union
-            while u[0] == "union" or (u[0] == "other" and " | " in u[1]):
+            while u[0] == "union" or (u[0] == "alt" and " | " in u[1]):
                 u = gen_unsupported(rng, tg, 1)
         else:
             u = gen_unsupported(rng, tg, 1)
             # `X | Y` as a parameter of a typing generic is looked up in typing's alias cache, where it
             # compares equal to typing.Union[X, Y]: which object comes back depends on what was built
             # before in the process.  Only use it as a direct field annotation.
-            while u[0] == "other" and " | " in u[1] and not (route and route[-1][0] == "f"):
+            while u[0] == "alt" and " | " in u[1] and not (route and route[-1][0] == "f"):
                 u = gen_unsupported(rng, tg, 1)
         parent[idx] = u
-        done.append((route, {"other": "CType", "rawtupleb": "CType", "union": "CUnion", "dictk": "CNonStrKey"}[u[0]]))
+        if contains_unsupported(u):      # an alternative spelling the implementation handles is not unsupported
+            done.append((route, u[0]))
     strip_defaults(t)
     return t, done
 
@@ -816,9 +897,19 @@ def render_cpath(route):
     return ".".join("[]" if e[0] == "any" else "[%d]" % e[1] if e[0] == "i" else e[1] for e in route)
 
 
-CHECK_MSGS = [("CUnion", "Unsupported Union type in configuration field "),
-              ("CNonStrKey", "Unsupported non-string-key dictionary type in configuration field "),
-              ("CType", "Unsupported data type in configuration field ")]
+def definition_paths(t):
+    nodes = []
+    sub_nodes(t, [], nodes, into_alt=True)
+    return [[]] + [n[0] for n in nodes]
+
+
+def ccpath(route):
+    return clist("CAny" if e[0] == "any" else "CIdx %s" % cnat(e[1]) if e[0] == "i" else "CField %s" % cstr(e[1])
+                 for e in route)
+
+
+def cfams():
+    return clist(cnat(f) for f in sorted(FAMS_ON))
 
 
 def impl_check(t):
@@ -838,19 +929,8 @@ def check_case_term(t, obs):
     if obs[0] == "ok":
         o = "CoOk"
     elif obs[0] == "cfgerr":
-        for kind, pre in CHECK_MSGS:
-            if obs[1].startswith(pre):
-                elems = []
-                rest = obs[1][len(pre):]
-                for part in (rest.split(".") if rest else []):
-                    if part == "[]":
-                        elems.append("CAny")
-                    elif re.fullmatch(r"\[\d+\]", part):
-                        elems.append("CIdx %s" % cnat(int(part[1:-1])))
-                    else:
-                        elems.append("CField %s" % cstr(part))
-                o = "(CoErr %s %s)" % (kind, clist(elems))
-    return "(CCheck %s %s)" % (cann(t), o)
+        o = "(CoErr %s)" % clist(ccpath(r) for r in named_paths(obs[1], definition_paths(t), render_cpath))
+    return "(CCheck %s %s %s)" % (cfams(), cann(t), o)
 
 
 def impl_parse_value(t, data):
@@ -875,19 +955,10 @@ def parse_ann_case_term(t, data, obs):
     if obs[0] == "ok":
         o = "(PoOk %s %s)" % (obs[1], cj(obs[2]))
     elif obs[0] == "cfgerr":
-        sm = split_message(obs[1])
-        o = "PoOther"
-        if sm:
-            out = []
-            all_paths(t, data, [], out)
-            hits = {json.dumps(p) for p in out if render_path(p) == sm[1]}
-            if len(hits) == 1:
-                o = "(PoErr %s %s)" % (sm[0], cpath(json.loads(hits.pop())))
-            elif len(hits) > 1:
-                amb = True
+        o = "(PoErr %s)" % clist(cpath(p) for p in named_paths(obs[1], data_paths(t, data), render_path))
     else:
         o = "PoOther"
-    return "(CParseAnn %s %s %s %s)" % (cann(t), cj(data), float_table(data), o), amb
+    return "(CParseAnn %s %s %s %s %s)" % (cfams(), cann(t), cj(data), float_table(data), o), amb
 
 
 # =========================================================================================
@@ -912,21 +983,45 @@ def impl_parse(t, data):
         return ("exc", "to_dict:" + type(e).__name__, str(e))
 
 
-MSGS = [("Mismatch", "Type mismatch in configuration item "), ("Missing", "Missing value for required configuration item "),
-        ("Unknown", "Unknown configuration item ")]
+DELIMS = set(" \t\n\r:;,()'\"`")
 
 
-def split_message(msg):
-    for kind, pre in MSGS:
-        if msg.startswith(pre):
-            rest = msg[len(pre):]
-            if kind == "Mismatch":
-                j = rest.rfind(": got <class ")
-                if j < 0:
-                    return None
-                rest = rest[:j]
-            return kind, rest
-    return None
+def named_in(msg, rendered):
+    """does the message contain `rendered` (a full dotted / indexed item path) as a delimited token —
+    anywhere, whatever the sentence around it"""
+    if rendered == "":
+        return False
+    i = msg.find(rendered)
+    while i >= 0:
+        j = i + len(rendered)
+        if (i == 0 or msg[i - 1] in DELIMS) and (j == len(msg) or msg[j] in DELIMS):
+            return True
+        i = msg.find(rendered, i + 1)
+    return False
+
+
+def named_paths(msg, candidates, render):
+    """the candidate paths (structured) that the message names; the root (empty path) counts as
+    named only when it is a candidate and nothing else is named (a root has no name)"""
+    out, seen = [], set()
+    for c in candidates:
+        key = json.dumps(c)
+        if key in seen:
+            continue
+        seen.add(key)
+        if c and named_in(msg, render(c)):
+            out.append(c)
+    if not out:      # an item whose path renders as the empty string (the root; a top-level key "") cannot be named
+        for c in candidates:
+            if render(c) == "" and c not in out:
+                out.append(c)
+    return out
+
+
+def data_paths(t, data):
+    out = []
+    all_paths(t, data, [], out)
+    return out
 
 
 def float_table(data):
@@ -960,16 +1055,7 @@ def parse_case_term(t, data, obs):
     if obs[0] == "ok":
         o = "(PoOk %s %s)" % (obs[1], cj(obs[2]))
     elif obs[0] == "cfgerr":
-        sm = split_message(obs[1])
-        o = "PoOther"
-        if sm:
-            out = []
-            all_paths(t, data, [], out)
-            hits = {json.dumps(p) for p in out if render_path(p) == sm[1]}
-            if len(hits) == 1:
-                o = "(PoErr %s %s)" % (sm[0], cpath(json.loads(hits.pop())))
-            elif len(hits) > 1:
-                amb = True
+        o = "(PoErr %s)" % clist(cpath(p) for p in named_paths(obs[1], data_paths(t, data), render_path))
     else:
         o = "PoOther"
     return "(CParse %s %s %s %s)" % (cty(t), cj(data), float_table(data), o), amb
@@ -1061,14 +1147,16 @@ def oracle_parse(t, data, obs, expect, matching):
                     "config_struct_from_dict raised %s (%s) instead of QMI_ConfigurationException" % (obs[1], obs[2][:80])))
         return bad
     if obs[0] == "cfgerr":
-        sm = split_message(obs[1])
+        named = named_paths(obs[1], data_paths(t, data), render_path)
         if matching:
             bad.append(("refused-matching-data", "data admitted by the declared type was refused: " + obs[1][:100]))
-        elif sm is None:
-            bad.append(("error-without-item", "configuration error does not name an item: " + obs[1][:100]))
-        elif expect and (sm[0] != expect[0] or sm[1] != render_path(expect[1])):
-            bad.append(("wrong-item-named", "error should name %s item %r, message: %s"
-                        % (expect[0], render_path(expect[1]), obs[1][:100])))
+        elif not named or all(render_path(c) == "" for c in named) and not any(
+                c and render_path(c) == "" for c in named):
+            bad.append(("error-without-item", "configuration error names no item of the data (no item path "
+                        "occurs in it as a token): " + obs[1][:100]))
+        elif expect and render_path(expect[1]) and not named_in(obs[1], render_path(expect[1])):
+            bad.append(("wrong-item-named", "the offending item is %r; the message does not name it: %s"
+                        % (render_path(expect[1]), obs[1][:100])))
         return bad
     # accepted
     back, r = obs[2], obs[3]
@@ -1127,7 +1215,7 @@ def impl_cuts(text):
     from qmi.core.config import _strip_comments
     out = _strip_comments(text)
     src = re.split(r"[\r\n]", text)
-    res = out.split("\n")
+    res = re.split(r"[\r\n]", out)      # which line-break character ends a line is not fixed by C16
     if len(src) != len(res):
         return None, out
     cuts = []
@@ -1242,21 +1330,89 @@ def load_case_term(text, cuts, stripped, obs):
         except TypeError:
             o = "LoOther"
     else:
-        o = {"config": "LoConfig", "valueerror": "LoValueError", "other": "LoOther"}[obs[0]]
+        o = {"config": "LoRejected", "valueerror": "LoRejected", "other": "LoOther"}[obs[0]]
     return "(CLoad %s %s %s %s)" % (cstr(text), ccuts(cuts), rawt, o)
 
 
+def _plain(v):
+    if isinstance(v, Obj):
+        return {k: _plain(x) for k, x in v}
+    if isinstance(v, dict):
+        return {k: _plain(x) for k, x in v.items()}
+    if isinstance(v, (list, tuple)):
+        return [_plain(x) for x in v]
+    return v
+
+
 def tree_eq(result, tree):
-    """load result (nested dicts) equals the generated Obj tree, key order included"""
+    """load result equals the generated tree as Python compares data (scalar types included,
+    key order of mappings not)"""
     try:
-        return cj(result) == cj(tree)
+        cj(result)
     except TypeError:
         return False
+    return jeq(_plain(result), _plain(tree))
 
 
 # =========================================================================================
 # The run
 # =========================================================================================
+def _same_outcome(t1, t2, data):
+    a, b = impl_parse(t1, data), impl_parse(t2, data)
+    if a[0] != b[0]:
+        return "%s vs %s" % (a[0], b[0])
+    if a[0] == "ok" and (a[1] != b[1] or not jeq(a[2], b[2])):
+        return "different results"
+    if a[0] == "cfgerr":
+        na = named_paths(a[1], data_paths(t2, data), render_path)
+        nb = named_paths(b[1], data_paths(t2, data), render_path)
+        if sorted(map(json.dumps, na)) != sorted(map(json.dumps, nb)):
+            return "different items named"
+    return None
+
+
+def differs_from_equivalent(rng, t):
+    """an alternative spelling that is handled must be handled EXACTLY as its typing equivalent:
+    same result object / same data back / same refusal with the same item named, on matching and mutated data"""
+    t_eq = replace_alt(t)
+    for j in range(4):
+        data = gen_data(rng, t_eq)
+        if j >= 2:
+            data, _ = mutate(rng, t_eq, data)
+        d = _same_outcome(t, t_eq, data)
+        if d:
+            return "alternative annotation spelling is accepted but not handled as its typing equivalent (%s on %r)" % (d, data)
+    return None
+
+
+def accepted_unsupported(rng, t):
+    """the class check passed a class that has annotations outside the pinned grammar: allowed only if each
+    of them has a typing equivalent and the class behaves exactly like the class written with the equivalents"""
+    nodes = []
+    sub_nodes(t, [], nodes)
+    t_eq = copy.deepcopy(t)
+    nodes = []
+    sub_nodes(t_eq, [], nodes)
+    for route, parent, idx in nodes:
+        u = parent[idx]
+        if u[0] == "alt":
+            parent[idx] = copy.deepcopy(alt_equiv(u))
+        elif u[0] == "rawtupleb":
+            parent[idx] = ["rawtuple"]
+        elif u[0] in ("other", "union", "dictk"):
+            return "class with an unsupported annotation at %r passes the check" % render_cpath(route)
+    if contains_unsupported(t_eq):
+        return "class with an unsupported annotation passes the check"
+    for j in range(4):
+        data = gen_data(rng, t_eq)
+        if j >= 2:
+            data, _ = mutate(rng, t_eq, data)
+        d = _same_outcome(t, t_eq, data)
+        if d:
+            return "annotation outside the grammar is accepted but not handled as its typing equivalent (%s on %r)" % (d, data)
+    return None
+
+
 LINESEPS = ["\u2028", "\u2029", "\x85", "\x0b", "\x0c", "\x1c", "\x1d", "\x1e"]
 
 
@@ -1287,21 +1443,11 @@ def file_roundtrip(ck, rng, n):
             dump_config_file(big, fn)
             with open(fn) as f:
                 on_disk = f.read()
-            if on_disk != dump_config_string(big):
-                fail("content", "dump_config_file wrote something else than dump_config_string returns", case)
             if not tree_eq(load_config_file(fn), to_obj(big)):
                 fail("roundtrip", "load_config_file(dump_config_file(d)) is not d", case)
             dump_config_file(small, fn)                       # overwrite with a shorter document
             if not tree_eq(load_config_file(fn), to_obj(small)):
                 fail("overwrite", "a second dump_config_file to the same file does not replace the first", case)
-            before = open(fn).read()
-            try:
-                dump_config_file([1, 2], fn)                    # refused: not a mapping
-                fail("nonmapping", "dump_config_file accepted a non-mapping", case)
-            except QMI_ConfigurationException:
-                pass
-            if open(fn).read() != before:
-                fail("refused-dump-damages-file", "a refused dump_config_file changed the existing file", case)
             # a hand-written file with comments
             text = decorate(rng, dump_config_string(big))
             try:
@@ -1356,6 +1502,9 @@ def run(ck):
     quick = ck.tier == "quick"
     terms, metas = [], []
     t_impl = time.time()
+    probe_families()
+    ck.coverage["open_choices_observed"] = {
+        "alternative_annotation_spellings_handled (0 = X | Y, 1 = list[X] / dict[..] / tuple[..])": sorted(FAMS_ON)}
 
     def add(term, meta):
         terms.append(term)
@@ -1386,17 +1535,56 @@ def run(ck):
         ck.note_case(("strip", text), "#" in text and '"' in text)
         ref = [ref_cut(l) for l in re.split(r"[\r\n]", text)]
         flagged = False
-        if cuts is None:
-            flagged = True
-            ck.report("strip:not-line-wise", "_strip_comments output is not, line by line (split at CR / LF only), a prefix "
-                      "of the input: %r -> %r" % (text[:60], out[:60]), {"kind": "strip", "text": text})
-        elif cuts != ref:
+        # C16 is about the loaded VALUE; the comment-free intermediate text of junk (non-JSON) input is only
+        # compared with the model (a difference is a broken tie, reported without claiming a failing input;
+        # the value-level probes below turn a wrong cut into a concrete failing document)
+        if cuts is None or cuts != ref:
             flagged = True
             i = next((i for i, (a, b) in enumerate(itertools.zip_longest(cuts or [], ref)) if a != b), 0)
-            line = re.split(r"[\r\n]", text)[i]
-            ck.report("strip:wrong-cut", "_strip_comments cuts line %r at %r; the first '#' outside a string is at %r"
-                      % (line, (cuts or ["?"] * (i + 1))[i], ref[i]), {"kind": "strip", "text": line})
+            line = re.split(r"[\r\n]", text)[min(i, len(ref) - 1)]
+            ck.report("corr:strip-cut-differs", "the comment-free text computed for %r is not the input cut, per line, at "
+                      "the first '#' outside a string (line %r: expected cut %r)" % (text[:60], line[:60], ref[min(i, len(ref) - 1)]),
+                      {"kind": "strip", "text": text, "broken": "comment scanner vs _strip_comments on non-JSON input"},
+                      found_input=False)
         add("(CStrip %s %s)" % (cstr(text), ccuts(cuts)), {"kind": "strip", "text": text, "flagged": flagged})
+
+    # ---------------- value-level probes of the scanner: every short string content ---------------
+    # exhaustive over '#', escaped quote, escaped backslash and a letter; each string is followed on its line
+    # by a comment containing quotes / backslashes: the loaded value must be exactly the strings
+    toks = ['#', '\\"', '\\\\', 'a']
+    lits = [""]
+    for n in range(1, 5 if quick else 7):
+        lits += ["".join(w) for w in itertools.product(toks, repeat=n)]
+    comments = ['', ' # c', ' # "', ' #"#"', ' # \\', ' # \\" \'', '#{"k0": 1}', ' # "x": "y",']
+    per = 16
+    for i in range(0, len(lits), per):
+        group = lits[i:i + per]
+        eol = ["\n", "\r\n", "\r"][(i // per) % 3]
+        lines_ = ["{"]
+        want = {}
+        for j, w in enumerate(group):
+            lit = '"' + w + '"'
+            want["k%d" % j] = json.loads(lit)
+            lines_.append('"k%d": %s,%s' % (j, lit, comments[(i + j) % len(comments)]))
+        lines_.append('"end": 0 # }')
+        lines_.append("}")
+        want["end"] = 0
+        text = eol.join(lines_)
+        cuts, stripped = impl_cuts(text)
+        obs = impl_load(text)
+        ck.count("doc:exhaustive-string-contents", len(group))
+        ck.note_case(("load", text), True)
+        why = None
+        if not (obs[0] == "ok" and tree_eq(obs[1], want)):
+            got = obs[1] if obs[0] == "ok" else obs[0]
+            bad_keys = [k for k in want if not (obs[0] == "ok" and isinstance(got, dict) and k in got and jeq(got[k], want[k]))]
+            why = "string contents / comments not respected: %s" % (
+                "rejected (%s)" % obs[0] if obs[0] != "ok" else "key %s loads as %r, written %r" % (
+                    bad_keys[0], got.get(bad_keys[0]) if isinstance(got, dict) else got, want[bad_keys[0]]))
+        if why:
+            ck.report("load:string-contents-or-comment-altered", why,
+                      {"kind": "load", "text": text, "expect": "ok", "tree": want})
+        add(load_case_term(text, cuts, stripped, obs), {"kind": "load", "text": text, "flagged": bool(why)})
 
     # ---------------- documents through load / dump ----------------------------------------
     ndoc = 600 if quick else 8000
@@ -1415,31 +1603,35 @@ def run(ck):
             ck.count("doc:dump")
             ck.note_case(("dump", base), True)
             why = None
-            if _strip_comments(base) != base:
-                why = "comment stripping changes the output of dump_config_string"
-            else:
-                lo = impl_load(base)
-                if lo[0] != "ok" or not tree_eq(lo[1], otree):
-                    why = "load_config_string(dump_config_string(d)) is not d (%s)" % (lo[0],)
+            lo = impl_load(base)
+            if lo[0] != "ok" or not tree_eq(lo[1], otree):
+                why = "load_config_string(dump_config_string(d)) is not d (%s)" % (lo[0],)
             if why:
                 ck.report("dump-load", why, {"kind": "dump", "tree": tree})
-            add("(CDump %s (Some %s))" % (cj(otree), cstr(base)), {"kind": "dump", "tree": tree, "flagged": bool(why)})
+            raw = raw_parse(base)
+            add("(CDump %s %s %s)" % (cj(otree), cstr(base), "None" if isinstance(raw, str) else "(Some %s)" % cj(raw)),
+                {"kind": "dump", "tree": tree, "flagged": bool(why)})
+            # layout of the dumped text = open choice; agreement with the pinned printer is only recorded
+            add("(CDumpPinned %s %s)" % (cj(otree), cstr(base)), {"kind": "dumppinned", "tree": tree, "flagged": True})
         else:
             if not isinstance(tree, dict):
                 from qmi.core.exceptions import QMI_ConfigurationException
                 ck.count("doc:dump-nonmapping")
                 ck.note_case(("dump-nonmapping", repr(tree)), False)
+                # a non-mapping cannot be loaded back (load demands a mapping): dump either refuses it, or
+                # C16's "loading what dump produced returns the original data" must hold for it
+                got = None
                 try:
-                    dump_config_string(tree)
-                    got = "returned"
-                except QMI_ConfigurationException:
-                    got = None
+                    dumped = dump_config_string(tree)
+                    lo = impl_load(dumped)
+                    if not (lo[0] == "ok" and tree_eq(lo[1], otree)):
+                        got = "dump_config_string accepted a non-mapping that does not load back (%s)" % lo[0]
+                    refused = False
                 except Exception as e:  # noqa
-                    got = type(e).__name__
+                    refused = True
                 if got:
-                    ck.report("dump:non-mapping-not-refused", "dump_config_string of a non-mapping: %s" % got,
-                              {"kind": "dump", "tree": tree})
-                add("(CDump %s %s)" % (cj(otree), "None" if got is None else "(Some [])"),
+                    ck.report("dump:non-mapping-dumped-but-not-loadable", got, {"kind": "dump", "tree": tree})
+                add("(CDumpRefused %s %s)" % (cj(otree), cbool(refused)),
                     {"kind": "dump", "tree": tree, "flagged": bool(got)})
             style = rng.choice(["compact", "loose"])
             if isinstance(tree, dict) and rng.random() < 0.25 and add_dup(rng, otree):
@@ -1457,14 +1649,13 @@ def run(ck):
         ck.count("doc:len-%s" % ("0-99" if len(text) < 100 else "100-399" if len(text) < 400 else "400+"))
         ck.note_case(("load", text), ("#" in text and '"' in text) or expect != "ok")
         why = None
-        if obs[0] == "other":
-            why = "load_config_string raised " + obs[1][:80]
-        elif expect == "ok" and not (obs[0] == "ok" and tree_eq(obs[1], otree)):
+        rejected = obs[0] in ("valueerror", "config")      # how a document is rejected is not fixed by C16
+        if expect == "ok" and not (obs[0] == "ok" and tree_eq(obs[1], otree)):
             why = "document with comments does not load to its data (%s)" % (obs[0] if obs[0] != "ok" else "different data")
-        elif expect == "dup" and obs[0] != "valueerror":
+        elif expect == "dup" and not rejected:
             why = "document with a repeated key was not rejected (%s)" % obs[0]
-        elif expect == "notdict" and obs[0] != "config":
-            why = "non-mapping top level: expected QMI_ConfigurationException, got %s" % obs[0]
+        elif expect == "notdict" and not rejected:
+            why = "non-mapping top level was not rejected with ValueError / QMI_ConfigurationException (%s)" % obs[0]
         if why:
             ck.report("load:" + why.split("(")[0].strip()[:50], why,
                       {"kind": "load", "text": text, "expect": expect, "tree": tree if expect == "ok" else None})
@@ -1498,8 +1689,6 @@ def run(ck):
                 if expect == "ok" and not (obs[0] == "ok" and tree_eq(obs[1], to_obj(tree))):
                     why = "document with U+%04X %s does not load to its data (%s)" % (
                         ord(sep), "in a comment" if bucket.endswith("comment") else "in a string", obs[0])
-                elif expect == "valueerror" and obs[0] != "valueerror":
-                    why = "raw control character U+%04X in a string: expected ValueError from json, got %s" % (ord(sep), obs[0])
                 if why:
                     ck.report("load:linesep " + why.split("(")[0].strip()[14:60], why,
                               {"kind": "load", "text": text, "expect": expect if expect == "ok" else None,
@@ -1576,29 +1765,25 @@ def run(ck):
         ck.count("check:outcome-" + obs[0])
         ck.note_case(("check", t), bool(injected))
         why = None
+        supported = not contains_unsupported(t)
         if obs[0] == "exc":
             why = "_check_config_struct_type raised %s (%s)" % (obs[1], obs[2][:60])
-        elif not injected and obs[0] != "ok":
+        elif supported and obs[0] != "ok":
             why = "class with supported field types only is refused: " + obs[1][:100]
-        elif injected and obs[0] == "ok":
-            why = "class with an unsupported annotation at %r passes the check" % render_cpath(injected[0][0])
-        elif len(injected) == 1:
-            kind, route = injected[0][1], injected[0][0]
-            want = dict(CHECK_MSGS)[kind] + render_cpath(route)
-            if obs[1] != want:
-                why = "refusal should read %r, got %r" % (want, obs[1][:120])
-        if why is None:     # config_struct_from_dict must refuse the class before looking at the data
-            try:
-                config_struct_from_dict({}, cls)
-                got = ("ok",)
-            except QMI_ConfigurationException as e:
-                got = ("cfgerr", str(e))
-            except Exception as e:  # noqa
-                got = ("exc", type(e).__name__)
-            if injected and got != obs:
-                why = "config_struct_from_dict does not refuse the class like the check does: %r" % (got,)
-            elif not injected and got[0] == "cfgerr" and got[1].startswith("Unsupported"):
-                why = "config_struct_from_dict refuses a supported class: " + got[1][:80]
+        elif not supported and obs[0] == "ok":
+            why = accepted_unsupported(rng, t)          # None if handled exactly as the typing equivalent
+        elif not supported and len(injected) == 1 and not named_in(obs[1], render_cpath(injected[0][0])):
+            why = "the refusal does not name the definition path %r of the unsupported annotation: %s" % (
+                render_cpath(injected[0][0]), obs[1][:120])
+        if why is None:     # config_struct_from_dict: refuses such a class whatever the data; accepts matching data otherwise
+            got = impl_parse(t, gen_data(rng, t))
+            if not supported and obs[0] != "ok" and got[0] != "cfgerr":
+                why = "config_struct_from_dict does not refuse the class that the check refuses (%s)" % got[0]
+            elif supported and got[0] != "ok":
+                why = "config_struct_from_dict refuses matching data for a supported class: %s" % (got[1][:80],)
+        if why is None and supported and contains_alt(t):
+            ck.count("check:alt-spelling-handled")
+            why = differs_from_equivalent(rng, t)
         if why:
             ck.report("check:" + re.sub(r"%r|'[^']*'", "", why.split(":")[0])[:50].strip(), why, {"kind": "check", "type": t})
         add(check_case_term(t, obs), {"kind": "check", "type": t, "flagged": bool(why)})
@@ -1636,6 +1821,14 @@ def run(ck):
     _random.Random(1).shuffle(perm)
     bad = sorted(perm[i] for i in ck.run_model("C16.Corr", "check_case", [terms[i] for i in perm], "case", shard=150))
     ck.coverage["model_eval_s"] = round(time.time() - t_model, 1)
+    # layout of the dumped text is an open choice of the model (C16_dump_load_any_printer): a difference with the
+    # pinned printer json.dumps(indent=4) is recorded, it is neither a disagreement nor a violation
+    npinned = sum(1 for m in metas if m["kind"] == "dumppinned")
+    ndiff = sum(1 for i in bad if metas[i]["kind"] == "dumppinned")
+    ck.coverage["dump_layout"] = {"dumps_compared_with_pinned_printer": npinned, "differing": ndiff,
+                                  "note": "a differing layout is allowed; the scanner leaving the dumped text alone and "
+                                          "load(dump(d)) = d are checked for the actual text (CDump)"}
+    bad = [i for i in bad if metas[i]["kind"] != "dumppinned"]
     ck.coverage["correspondence_disagreements"] = len(bad)
     # cases the oracle flagged are already reported (or listed as known) under their own key
     ck.coverage["disagreements_on_oracle_flagged_cases"] = sum(1 for i in bad if metas[i]["flagged"])
